@@ -207,8 +207,10 @@ def c01_config_b(prop, tier, seed, env, say, verif, repo, target, bin, **kw):
 def _cargo_json(cmd, cwd, env, timeout):
     p = subprocess.run(cmd, cwd=cwd, env=env, stdout=subprocess.PIPE, stderr=subprocess.PIPE, text=True, timeout=timeout)
     msgs = []
-    for line in p.stdout.splitlines():
-        line = line.strip()
+    # NB: str.splitlines() also splits on U+2028/U+2029/U+0085..., which rustc happily prints inside
+    # its JSON diagnostics when a literal contains them: split on "\n" only
+    for line in p.stdout.split("\n"):
+        line = line.strip(" \r\t")
         if not line.startswith("{"):
             continue
         try:
@@ -319,7 +321,7 @@ def c17(prop, tier, seed, env, say, verif, repo, target, bin, **kw):
         except subprocess.TimeoutExpired:
             res["inconclusive"] = "the valid-set binary timed out"
             return res
-        for line in pr.stdout.splitlines():
+        for line in pr.stdout.split("\n"):
             parts = line.split(" ", 2)
             if parts[0] == "CHECKED":
                 checked.add(int(parts[1]))
